@@ -35,9 +35,57 @@ macro_rules! viol {
 macro_rules! ensure {
     ($cond:expr, $prop:expr, $sig:expr, $($arg:tt)*) => {
         if !($cond) {
-            return Err(viol!($prop, $sig, $($arg)*));
+            let v = viol!($prop, $sig, $($arg)*);
+            if !$crate::enga::soften(&v) {
+                return Err(v);
+            }
         }
     };
+}
+
+thread_local! {
+    /// the property the running check owns: predicate failures of *other* properties are noted and the
+    /// history goes on (so that an earlier foreign failure cannot mask a later failure of the owner)
+    pub static OWNER: Cell<Option<&'static str>> = const { Cell::new(None) };
+    pub static FOREIGN: std::cell::RefCell<Option<Viol>> = const { std::cell::RefCell::new(None) };
+}
+
+/// failures after which the interpreter cannot safely go on (it would index out of the arena, or call
+/// into an arena whose free list no longer terminates)
+const FATAL_SIGS: &[&str] = &["range-out-of-arena", "capacity-exceeds-arena", "cursor-range", "above-cursor", "below-data-offset", "walk-incomplete", "ctor-failed", "reopen-failed", "reopen-bytes", "infra"];
+
+pub fn soften(v: &Viol) -> bool {
+    let Some(owner) = OWNER.with(|o| o.get()) else { return false };
+    if owner == v.prop || FATAL_SIGS.contains(&v.sig.as_str()) {
+        return false;
+    }
+    FOREIGN.with(|f| {
+        let mut f = f.borrow_mut();
+        if f.is_none() {
+            *f = Some(v.clone());
+        }
+    });
+    true
+}
+
+pub fn set_owner(o: Option<&'static str>) -> Option<&'static str> {
+    FOREIGN.with(|f| *f.borrow_mut() = None);
+    OWNER.with(|c| c.replace(o))
+}
+
+pub fn take_foreign() -> Option<Viol> {
+    FOREIGN.with(|f| f.borrow_mut().take())
+}
+
+/// keeps a freshly returned handle from being dropped (and so from re-entering the arena) if a check
+/// fails before the handle is registered in the model
+struct NoDrop(Option<HBox>);
+impl Drop for NoDrop {
+    fn drop(&mut self) {
+        if let Some(o) = self.0.take() {
+            std::mem::forget(o);
+        }
+    }
 }
 #[allow(unused_imports)]
 pub(crate) use {ensure, viol};
@@ -890,7 +938,9 @@ impl<A: Flavor> World<A> {
                 }
                 Ok((res, None))
             }
-            Ok(mut obj) => {
+            Ok(obj) => {
+                let mut guard_obj = NoDrop(Some(obj));
+                let obj = guard_obj.0.as_mut().unwrap();
                 let (off, cap, boff, bcap) = (obj.offset(), obj.capacity(), obj.buffer_offset(), obj.buffer_capacity());
                 ensure!(!self.ro || zero, "C04", "ro-alloc-succeeded", "{what} succeeded on a read-only arena");
                 if zero {
@@ -902,6 +952,7 @@ impl<A: Flavor> World<A> {
                     // a zero-sized typed owned handle may embed an arena clone; measure and keep it so refs() stays modelled
                     let embeds = post.refs - pre.refs.min(post.refs);
                     let pre2 = self.snap();
+                    let obj = guard_obj.0.take().unwrap();
                     if embeds == 0 {
                         guard("drop(zero-size handle)", "C01", move || drop(obj))?;
                         let post2 = self.snap();
@@ -1011,6 +1062,7 @@ impl<A: Flavor> World<A> {
                 let id = self.fresh_id();
                 let expect = mem[off..off + cap].to_vec();
                 let mut h = H { obj: None, kind, ty, off, cap, boff, bcap, expect, embeds, via, detached: false, drop_id: None, id };
+                let mut obj = guard_obj.0.take().unwrap();
                 if t.needs_drop && kind == HKind::Typed {
                     obj.write(id);
                     h.drop_id = Some(id as u64);
@@ -1655,7 +1707,10 @@ pub struct RunOut {
     pub classes: BTreeSet<&'static str>,
     pub trace: Vec<Obs>,
     pub mem: Vec<u8>,
+    /// failure of the owning property, or a failure the interpreter could not go past
     pub viol: Option<Viol>,
+    /// first predicate failure of another property that was noted and passed over
+    pub foreign: Option<Viol>,
 }
 
 /// Runs a whole history on flavour `A`.
@@ -1670,33 +1725,33 @@ pub fn run_history<A: Flavor>(cfg: &Cfg, ops: &[Op], mode: Mode) -> RunOut {
     let want_mem = mode.trace;
     let mut w = match World::<A>::new(cfg, mode) {
         Ok(Some(w)) => w,
-        Ok(None) => return RunOut { classes: BTreeSet::new(), trace: vec![], mem: vec![], viol: None },
+        Ok(None) => return RunOut { classes: BTreeSet::new(), trace: vec![], mem: vec![], viol: None, foreign: None },
         Err(v) => {
             verif::set_hook(None);
-            return RunOut { classes: BTreeSet::new(), trace: vec![], mem: vec![], viol: Some(v) };
+            return RunOut { classes: BTreeSet::new(), trace: vec![], mem: vec![], viol: Some(v), foreign: take_foreign() };
         }
     };
     let s0 = w.snap();
     if let Err(v) = w.check_invariants(&s0) {
         let (classes, trace) = (w.classes.clone(), std::mem::take(&mut w.trace));
         w.leak();
-        return RunOut { classes, trace, mem: vec![], viol: Some(v) };
+        return RunOut { classes, trace, mem: vec![], viol: Some(v), foreign: take_foreign() };
     }
     for (i, op) in ops.iter().enumerate() {
         if let Err(v) = w.step(i, op) {
             let (classes, trace) = (w.classes.clone(), std::mem::take(&mut w.trace));
             w.leak();
-            return RunOut { classes, trace, mem: vec![], viol: Some(v) };
+            return RunOut { classes, trace, mem: vec![], viol: Some(v), foreign: take_foreign() };
         }
     }
     let trace = std::mem::take(&mut w.trace);
     let mem = if want_mem { w.mem().to_vec() } else { vec![] };
     let classes_before = w.classes.clone();
     match w.teardown() {
-        Ok(classes) => RunOut { classes, trace, mem, viol: None },
+        Ok(classes) => RunOut { classes, trace, mem, viol: None, foreign: take_foreign() },
         Err(v) => {
             verif::set_hook(None);
-            RunOut { classes: classes_before, trace, mem, viol: Some(v) }
+            RunOut { classes: classes_before, trace, mem, viol: Some(v), foreign: take_foreign() }
         }
     }
 }
